@@ -69,11 +69,18 @@ type c07Mon struct {
 	fillBatch map[[3]uint64]int // number of distinct steps in which the order received coins
 	samples   int
 	names     map[string]string // address -> short name
+	// swap-fee rate (x 1e18) in force when the order was placed: the fee reserve taken from the orderer was
+	// floor(offer * that rate), whatever governance does to the rate afterwards
+	placedRate map[[3]uint64]*big.Int
+	// pairs in which an order placed under another swap-fee rate has been settled: their escrow may be off from then on
+	tainted map[[2]uint64]bool
 }
 
 func (m *c07Mon) Init(w *liqWorld) {
 	m.lastDisc = map[string]string{}
 	m.fillBatch = map[[3]uint64]int{}
+	m.placedRate = map[[3]uint64]*big.Int{}
+	m.tainted = map[[2]uint64]bool{}
 	m.prev = c07Snap{}
 	m.names = map[string]string{}
 	for _, a := range w.c.Accts {
@@ -82,10 +89,22 @@ func (m *c07Mon) Init(w *liqWorld) {
 }
 
 func (m *c07Mon) fee(w *liqWorld, o *c07Ord, amount *big.Int) *big.Int {
+	return m.feeAt(o, amount, w.rateNum[o.App])
+}
+
+func (m *c07Mon) feeAt(o *c07Ord, amount, rate *big.Int) *big.Int {
 	if o.Type == liqtypes.OrderTypeMM {
 		return new(big.Int)
 	}
-	return liqFee(amount, w.rateNum[o.App])
+	return liqFee(amount, rate)
+}
+
+// rateOf: the rate the order's fee reserve was computed with (the current one for orders first seen live).
+func (m *c07Mon) rateOf(w *liqWorld, o *c07Ord) *big.Int {
+	if r := m.placedRate[[3]uint64{o.App, o.Pair, o.ID}]; r != nil {
+		return r
+	}
+	return w.rateNum[o.App]
 }
 
 func (m *c07Mon) snapshot(w *liqWorld) c07Snap {
@@ -163,6 +182,8 @@ func (m *c07Mon) Observe(w *liqWorld, st *liqStep) {
 
 	// ---- expected balance movements derived from the order records
 	exp := map[string]map[string]*big.Int{}
+	expB := map[string]map[string]*big.Int{}  // the same with reading B for orders that lived through a fee-rate change
+	rateChanged := false                      // such an order terminated in this step
 	termKinds := map[string]map[string]bool{} // address|denom -> terminal statuses contributing in this step
 	var transitions []string
 	note := func(addr, denom, kind string) {
@@ -200,8 +221,10 @@ func (m *c07Mon) Observe(w *liqWorld, st *liqStep) {
 		case pre == nil && post != nil:
 			// placement: offer + fee reserve leaves the orderer
 			rec.Eval(1)
+			m.placedRate[key] = new(big.Int).Set(w.rateNum[post.App])
 			taken := new(big.Int).Add(post.Offer, m.fee(w, post, post.Offer))
 			c07Add(exp, post.Orderer, post.OfferDenom, new(big.Int).Neg(taken))
+			c07Add(expB, post.Orderer, post.OfferDenom, new(big.Int).Neg(taken))
 			note(post.Orderer, post.OfferDenom, "placed")
 			rec.Count("orders_observed_placed/"+strings.ToLower(strings.TrimPrefix(post.Type.String(), "ORDER_TYPE_")), 1)
 			if post.App != post.Pair {
@@ -230,6 +253,7 @@ func (m *c07Mon) Observe(w *liqWorld, st *liqStep) {
 			}
 			if dRecv.Sign() > 0 {
 				c07Add(exp, post.Orderer, post.DemandDenom, dRecv)
+				c07Add(expB, post.Orderer, post.DemandDenom, dRecv)
 				note(post.Orderer, post.DemandDenom, "fill")
 				m.fillBatch[key]++
 				rec.Count("fills_observed", 1)
@@ -239,16 +263,48 @@ func (m *c07Mon) Observe(w *liqWorld, st *liqStep) {
 			}
 			if !post.live() {
 				executed := new(big.Int).Sub(post.Offer, post.Rem)
-				reserve := m.fee(w, post, post.Offer)
-				earned := m.fee(w, post, executed)
+				// the reserve is what was taken at placement; the part "attributable to the executed portion" is
+				// floor(executed * rate) -- with the rate of the placement (reading A) or, when governance changed the
+				// rate in between, possibly with the rate in force now (reading B). Either way the refund plus the
+				// forwarded fee is exactly remaining + reserve.
+				r0, r1 := m.rateOf(w, post), w.rateNum[post.App]
+				reserve := m.feeAt(post, post.Offer, r0)
+				earned := m.feeAt(post, executed, r0)
+				earnedB := m.feeAt(post, executed, r1)
+				if earnedB.Cmp(reserve) > 0 {
+					earnedB = reserve
+				}
 				refund := new(big.Int).Add(post.Rem, new(big.Int).Sub(reserve, earned))
+				refundB := new(big.Int).Add(post.Rem, new(big.Int).Sub(reserve, earnedB))
 				c07Add(exp, post.Orderer, post.OfferDenom, refund)
+				c07Add(expB, post.Orderer, post.OfferDenom, refundB)
 				sn := c07StatusName(post.Status)
 				note(post.Orderer, post.OfferDenom, sn)
-				if p := cur.pairs[pk]; p != nil && earned.Sign() > 0 {
-					c07Add(exp, p.Collector.String(), post.OfferDenom, earned)
-					note(p.Collector.String(), post.OfferDenom, sn)
+				if r0.Cmp(r1) != 0 && post.Type != liqtypes.OrderTypeMM {
+					rateChanged = true
+					m.tainted[pk] = true
+					note(post.Orderer, post.OfferDenom, "fee-rate-changed")
+					rec.Count("orders_terminated_after_fee_rate_change", 1)
+					if r1.Cmp(r0) > 0 {
+						rec.Count("orders_terminated_after_fee_rate_rise", 1)
+					} else {
+						rec.Count("orders_terminated_after_fee_rate_cut", 1)
+					}
+					if p := cur.pairs[pk]; p != nil {
+						note(p.Collector.String(), post.OfferDenom, "fee-rate-changed")
+					}
 				}
+				if p := cur.pairs[pk]; p != nil {
+					if earned.Sign() > 0 {
+						c07Add(exp, p.Collector.String(), post.OfferDenom, earned)
+						note(p.Collector.String(), post.OfferDenom, sn)
+					}
+					if earnedB.Sign() > 0 {
+						c07Add(expB, p.Collector.String(), post.OfferDenom, earnedB)
+						note(p.Collector.String(), post.OfferDenom, sn)
+					}
+				}
+				delete(m.placedRate, key)
 				fillShape := "none"
 				switch {
 				case post.Rem.Sign() == 0:
@@ -304,7 +360,7 @@ func (m *c07Mon) Observe(w *liqWorld, st *liqStep) {
 			rec.Eval(1)
 			got := new(big.Int).Sub(c07Get(cur.bal, addr, d), c07Get(prev.bal, addr, d))
 			want := c07Get(exp, addr, d)
-			if got.Cmp(want) == 0 {
+			if got.Cmp(want) == 0 || got.Cmp(c07Get(expB, addr, d)) == 0 {
 				continue
 			}
 			// input class: the terminal statuses involved, else fill, else placement
@@ -325,6 +381,14 @@ func (m *c07Mon) Observe(w *liqWorld, st *liqStep) {
 				cls = "placed"
 			default:
 				cls = "no-order-event"
+			}
+			if tk["fee-rate-changed"] {
+				// its own call site: the label does not depend on which message or block ended the order
+				wantB := c07Get(expB, addr, d)
+				wit := w.witness(map[string]interface{}{"address": addr, "name": m.names[addr], "denom": d, "balance_before": c07Get(prev.bal, addr, d).String(), "balance_after": c07Get(cur.bal, addr, d).String(),
+					"expected_delta_fee_at_placement_rate": want.String(), "expected_delta_fee_at_current_rate": wantB.String(), "order_transitions_in_step": transitions, "observed_after": st.Kind + ":" + st.Desc})
+				rec.Violate("C07/fee-rate-changed/"+who+"-balance-mismatch", fmt.Sprintf("%s %s balance moved by %s; an order placed under another swap-fee rate ended here: remaining offer + fee reserve taken at placement - fee on the executed part is %s (rate of the placement) or %s (current rate)", who, d, got, want, wantB), wit)
+				continue
 			}
 			m.violate(w, st, who+"-balance-mismatch/"+cls, fmt.Sprintf("%s %s balance moved by %s, order records explain %s (difference %s)", who, d, got, want, new(big.Int).Sub(got, want)),
 				map[string]interface{}{"address": addr, "name": m.names[addr], "denom": d, "balance_before": c07Get(prev.bal, addr, d).String(), "balance_after": c07Get(cur.bal, addr, d).String(), "expected_delta": want.String(), "order_transitions_in_step": transitions})
@@ -354,7 +418,7 @@ func (m *c07Mon) Observe(w *liqWorld, st *liqStep) {
 		if liveSum[pk][o.OfferDenom] == nil {
 			liveSum[pk][o.OfferDenom] = new(big.Int)
 		}
-		liveSum[pk][o.OfferDenom].Add(liveSum[pk][o.OfferDenom], new(big.Int).Add(o.Rem, m.fee(w, o, o.Offer)))
+		liveSum[pk][o.OfferDenom].Add(liveSum[pk][o.OfferDenom], new(big.Int).Add(o.Rem, m.feeAt(o, o.Offer, m.rateOf(w, o))))
 		liveCnt[pk]++
 	}
 	for _, pk := range c07SortedPairs(cur.pairs) {
@@ -397,6 +461,11 @@ func (m *c07Mon) Observe(w *liqWorld, st *liqStep) {
 				if liveCnt[pk] == 0 {
 					law = "escrow-not-empty-without-live-orders"
 				}
+				if rateChanged || m.tainted[pk] {
+					detail := w.witness(map[string]interface{}{"pair": fmt.Sprintf("app=%d/pair=%d", pk[0], pk[1]), "difference": disc, "live_orders": liveCnt[pk], "order_transitions_in_step": transitions, "observed_after": st.Kind + ":" + st.Desc})
+					rec.Violate("C07/fee-rate-changed/"+law, "an order placed under another swap-fee rate ended in this step and the pair escrow no longer equals the remaining offer coins plus the fee reserves (taken at placement) of its live orders", detail)
+					continue
+				}
 				m.violate(w, st, law, "pair escrow balance differs from the remaining offer coins plus fee reserves of its live orders", map[string]interface{}{"pair": fmt.Sprintf("app=%d/pair=%d", pk[0], pk[1]), "difference": disc, "live_orders": liveCnt[pk], "order_transitions_in_step": transitions})
 			}
 		}
@@ -417,7 +486,11 @@ func (m *c07Mon) Observe(w *liqWorld, st *liqStep) {
 				rec.Count("owner_cancels_of_older_batch_orders_app_ne_pair", 1)
 			}
 			post := cur.orders[[3]uint64{msg.AppId, msg.PairId, msg.OrderId}]
-			if !st.OK {
+			if !st.OK && strings.Contains(st.Res.Log, "is smaller than") && (m.tainted[[2]uint64{msg.AppId, msg.PairId}] || (pre.Type != liqtypes.OrderTypeMM && m.rateOf(w, pre).Cmp(w.rateNum[pre.App]) != 0)) {
+				// consequence of the settlement under a changed fee rate: the escrow paid out more than it had taken
+				rec.Violate("C07/fee-rate-changed/owner-cancel-rejected", "the owner could not cancel a live order of an earlier batch: the refund computed with the current swap-fee rate exceeds what the pair escrow holds (this order, or one settled earlier in this pair, was placed under another rate): "+liqShort(st.Res.Log),
+					w.witness(map[string]interface{}{"order": pre.String(), "pair_current_batch": p.Batch, "log": st.Res.Log, "observed_after": st.Kind + ":" + st.Desc}))
+			} else if !st.OK {
 				m.violate(w, st, "owner-cancel-rejected", "the owner could not cancel a live order placed in an earlier batch: "+liqShort(st.Res.Log), map[string]interface{}{"order": pre.String(), "pair_current_batch": p.Batch, "log": st.Res.Log})
 			} else if post != nil && post.live() {
 				m.violate(w, st, "order-still-live", "cancel succeeded but the order is still live", map[string]interface{}{"before": pre.String(), "after": post.String()})
@@ -518,6 +591,13 @@ func TestC07(t *testing.T) {
 		rnd := rng("liq-workload", run)
 		liqRun(t, rec, rnd, run, blocks, &c07Mon{rec: rec})
 	}
+	// governance changes the swap-fee rate while orders are live (own runs: once an order placed under another rate has
+	// been settled the escrow is off for good, see known_findings.json)
+	for run := 0; run < ev.Pick(1, 4); run++ {
+		liqRunOpts(t, rec, rng("liq-workload-feegov", run), 100+run, ev.Pick(120, 500), &c07Mon{rec: rec}, true)
+	}
+	rec.Floor("gov_swap_fee_rate_changes", 4)
+	rec.Floor("orders_terminated_after_fee_rate_change", 10)
 	rec.Floor("msg/limit-order/succeeded", 200)
 	rec.Floor("msg/market-order/succeeded", 40)
 	rec.Floor("msg/mm-order/succeeded", 50)
@@ -539,7 +619,7 @@ func TestC07(t *testing.T) {
 	rec.Floor("obs_escrow_with_no_live_order", 100)
 	rec.Floor("batches_executed_app_ne_pair", 300)
 	rec.Assume("fills are read from the order record (ReceivedCoin / RemainingOfferCoin deltas between consecutive observation points); payments are read from bank balances")
-	rec.Assume("swap-fee reserve of a limit/market order = floor(offer * SwapFeeRate); fee attributable to the executed part = floor((offer - remaining) * SwapFeeRate); the app's SwapFeeRate is constant during a run")
+	rec.Assume("swap-fee reserve of a limit/market order = floor(offer * SwapFeeRate); fee attributable to the executed part = floor((offer - remaining) * SwapFeeRate); the rate is the one in force when the order was placed (the reserve) -- for the executed part of an order that lived through a governance change of the rate, the rate of the placement or the current one are both accepted")
 	rec.Assume("market-making orders carry no swap-fee reserve (the code takes none at placement and forwards none; the statement does not say otherwise)")
 	rec.Assume("the 5 orderer accounts do nothing but place and cancel orders and transaction fees are zero, so their balances are fully explained by their orders")
 }
